@@ -165,6 +165,12 @@ def rw_rules(rng, tag, hard=False):
         rules.append({"id": tag + "oe", "call": "open", "pat": "*.m*", "nth": "%%%d:1" % rng.range(2, 4), "act": "eintr"})
     if rng.chance(1, 3):
         rules.append({"id": tag + "os", "call": "write", "pat": "<stdout>", "nth": "*", "act": shorts()})
+    if rng.chance(1, 5):
+        # a file whose reported size is 0 although it delivers data (as procfs files, pipes and some network file systems do)
+        rules.append({"id": tag + "sz", "call": "stat", "pat": rng.choice(["*.mmm", "*.ms", "*"]), "nth": "*", "act": "size:0"})
+    if rng.chance(1, 5):
+        # every directory is a file system of its own: a rename across directories fails with EXDEV
+        rules.append({"id": tag + "xd", "call": "rename", "pat": "*", "nth": "*", "act": "xdev"})
     if hard:
         call, pat = rng.choice([("read", "*.ms"), ("read", "*.mmm"), ("write", "*.mmm"), ("open", "*.mmm"), ("open", "*.ms")])
         rules.insert(0, {"id": "h", "call": call, "pat": pat, "nth": str(rng.range(1, 6)),
@@ -192,6 +198,8 @@ def gen_env(rng, batch, nprocs, same_seed=False):
             env["torn"] = {"kth_write": rng.range(1, 4)}
     # how the user spells the entry file on the command line (the same spelling in every process of the case)
     env["spell"] = rng.weighted([("", 6), ("./", 2), (".//", 1), ("././", 1), ("abs", 1)])
+    # options of `run` that must not change what the program does or how it ends
+    env["run_flags"] = rng.weighted([([], 8), (["--profile"], 1), (["--no-pb"], 1)])
     return env
 
 
@@ -238,7 +246,13 @@ def leg_run(files, entry, env, idx, dump=False):
     place_dirty(world, env, module_artefacts(files, entry))
     cwd, ent = os.path.join(world, os.path.dirname(entry)), os.path.basename(entry)
     ent = spelled(env, cwd, ent)
-    p = core.run_cmd(cwd, ["run", ent, "-q"], plan=env["plans"][idx], gc=env["gc"][idx], dump=dump)
+    flags = list(env.get("run_flags") or [])
+    p = core.run_cmd(cwd, ["run", ent, "-q"] + flags, plan=env["plans"][idx], gc=env["gc"][idx], dump=dump)
+    if "--profile" in flags:
+        # the profile report follows the program's output after one empty line; it is not program output
+        cut = p["out"].rfind(b"\nRuntime Profile:")
+        if cut >= 0:
+            p["out"] = p["out"][:cut]
     return [p]
 
 
@@ -342,6 +356,10 @@ def shrink_env(case):
     if env.get("spell"):
         c = copy.deepcopy(case)
         c["env"]["spell"] = ""
+        yield c
+    if env.get("run_flags"):
+        c = copy.deepcopy(case)
+        c["env"]["run_flags"] = []
         yield c
     for key in ("dirty", "torn"):
         if env.get(key):
